@@ -1,27 +1,38 @@
 """C17 — custom settings WRITTEN ON THE COMMAND LINE (`replicat init … --encryption.kdf.n 16 --hashing.name blake2b`).
 
-Regenerated from /repo on every run (all by AST structure, never by text):
+Regenerated from /repo on every run, by SYMBOLIC EXECUTION (tools/optflow.py) and case analysis over the atomic conditions —
+what the functions DO in each case, not how their statements are arranged.  Renamed locals, swapped branches, `continue` /
+early `return`, conditional expressions, De Morgan, an index-`while` instead of `for`, a key helper, hoisted constants, added
+logging / counters leave the facts unchanged; any other EFFECT (another append / store / raise) or an extra deciding condition
+makes the shape "not recognised":
 
-* `replicat/utils/cli.py::parse_cli_settings` — the shape of the loop: the prefix test (`arg.startswith('--')`), the
-  bookkeeping of `flag` / `unknown` / `mapping` (flag after flag → unknown, value without flag → unknown, trailing flag →
-  unknown, value after flag → `mapping[key] = value`, `flag = None`), the key normalisation expression as a chain of str
-  methods on the flag (`flag.lstrip('-').replace('-', '_')` → `[.lstrip ['-'], .replace '-' '_']`; the model INTERPRETS
-  that list) and the name of the coercion function applied to the value;
-* `replicat/utils/__init__.py::flat_to_nested` — the separator default, whether the items are iterated `sorted(...)`,
-  the `*ancestors, attribute = key.split(sep)` / `setdefault` descent / item assignment inside a `try`, the exception
-  classes caught and the error raised for them;
-* `replicat/utils/__init__.py::guess_type` — the words that are title-cased before evaluation, the evaluator
-  (`ast.literal_eval`), the exception classes that make it return the text itself;
-* `replicat/__main__.py::main` — the call chain: unknown arguments of the SECOND parse → `cli.parse_cli_settings` →
-  (only if nothing is left unknown) `utils.flat_to_nested` → `main_parser.error` if anything is left unknown → handler,
-  the set of actions for which this happens, and that `_cmd_handler` hands its `settings` parameter to
-  `repository.init / add_key / benchmark` as `settings=`.
+* `replicat/utils/cli.py::parse_cli_settings` — one pass over the arguments with a pending-flag variable F, a fresh mapping M
+  and a fresh list U; per case of (`arg.startswith(<prefix>)`, `F is None`) what is appended / stored and what F becomes
+  (flag after flag → U gets the old flag; value without flag → U; value after flag → `M[key(F)] = coerce(arg)`, `F = None`;
+  trailing flag → U); the key normalisation as a chain of str methods on the flag (`[.lstrip ['-'], .replace '-' '_']`; the
+  model INTERPRETS that list) and the coercion function;
+* `replicat/utils/__init__.py::flat_to_nested` — the separator default, whether the items are iterated `sorted(...)`, the
+  descent `node = node.setdefault(part, {})` over all parts of `key.split(sep)` but the last, starting at the result dict,
+  the store `node[last] = value`, both inside one `try`; the exception classes caught and the error raised for them;
+* `replicat/utils/__init__.py::guess_type` — its RESULT per case of (is a str, `v.lower()` in WORDS, the evaluator raised):
+  the words that are title-cased before evaluation, the evaluator (`ast.literal_eval`), the exception classes that make it
+  return the text itself;
+* `replicat/__main__.py::main` — per case of (unknown words U0 of the second parse non-empty, action ∈ ACTIONS, words U1 that
+  `parse_cli_settings(U0)` leaves unknown non-empty): the settings handed to the handler are `flat_to_nested(flat)` iff
+  U0 ∧ action ∈ ACTIONS ∧ ¬U1, else None; `parser.error` is reached iff the still-unknown words are non-empty; then the handler
+  (the coroutine function main() runs, whatever its name) is called; and per action which `repository.<method>` receives
+  `settings=<that parameter>`.
 
 Whatever is not recognised sets the corresponding `…Recognised` flag to false (defaults are emitted so that the model still
 compiles); `Replicat.C17.cli_shape_bridge` discharges the flags and the extracted values by `decide`, and the theorems use
 that bridge — an unrecognised or changed shape makes the proof build fail (reported as a broken obligation).
 """
 import ast
+import sys
+from pathlib import Path
+
+sys.path.insert(0, str(Path(__file__).resolve().parent.parent))
+import optflow as F  # noqa: E402 — tools/optflow.py: symbolic execution of the source under test
 
 PRELUDE = r'''
 /-- one str method applied to the flag when `parse_cli_settings` derives the key -/
@@ -66,317 +77,506 @@ def lstrs(xs):
     return '[' + ', '.join(lstr(x) for x in xs) + ']'
 
 
-def is_name(node, name):
-    return isinstance(node, ast.Name) and node.id == name
-
-
 def const_str(node):
     return node.value if isinstance(node, ast.Constant) and isinstance(node.value, str) else None
 
 
-def is_none_test(node, var, negated):
-    """`var is not None` (negated=True) / `var is None`"""
-    return (isinstance(node, ast.Compare) and is_name(node.left, var) and len(node.ops) == 1
-            and isinstance(node.ops[0], ast.IsNot if negated else ast.Is)
-            and isinstance(node.comparators[0], ast.Constant) and node.comparators[0].value is None)
+class NotRec(ValueError):
+    pass
 
 
-def is_append(stmt, lst, what):
-    """`lst.append(what)` as an expression statement"""
-    return (isinstance(stmt, ast.Expr) and isinstance(stmt.value, ast.Call) and isinstance(stmt.value.func, ast.Attribute)
-            and stmt.value.func.attr == 'append' and is_name(stmt.value.func.value, lst)
-            and len(stmt.value.args) == 1 and is_name(stmt.value.args[0], what) and not stmt.value.keywords)
+def _effects(ex, extra=()):
+    """the events that change something: raises, stores, and the mutating method calls named in `extra`"""
+    out = []
+    for e in ex.events:
+        if e.kind in ('raise', 'setattr', 'setitem', 'delitem', 'delattr', 'unknown-stmt', 'yield'):
+            out.append(e)
+        elif e.kind == 'call':
+            sm = F.split_method(e.f)
+            if sm is not None and sm[1] in extra:
+                out.append(e)
+    return out
 
 
-def assign_to(stmt, name):
-    if isinstance(stmt, ast.Assign) and len(stmt.targets) == 1 and is_name(stmt.targets[0], name):
-        return stmt.value
-    return None
+def _base(t):
+    """the object a mapping value was built on (`m`, `m` with items assigned)"""
+    while t.op == 'merge':
+        t = t.a[0]
+    return t
 
 
-def flush_pending(stmt, flag, unknown):
-    """`if flag is not None: unknown.append(flag)`"""
-    return (isinstance(stmt, ast.If) and is_none_test(stmt.test, flag, True) and len(stmt.body) == 1
-            and is_append(stmt.body[0], unknown, flag) and not stmt.orelse)
+def _decided(pc, val):
+    r = F.truth(pc, val)
+    if r is None:
+        raise NotRec('a condition outside the modelled ones decides what happens: ' + F.show(pc)[:120])
+    return r
 
 
-def key_ops(expr, flag):
-    """`flag.m1(a…).m2(b…)…` → list of Lean CliKeyOp terms (innermost call first), or None"""
+def key_ops_of(term, flag):
+    """`flag.m1(a…).m2(b…)…` as a TERM → list of Lean CliKeyOp terms (innermost call first), or None"""
     ops = []
-    node = expr
-    while isinstance(node, ast.Call) and isinstance(node.func, ast.Attribute):
-        args = [const_str(a) for a in node.args]
-        meth = node.func.attr
-        if node.keywords or any(a is None for a in args):
-            ops.append(f'.other {lstr(node.func.attr)}')
+    node = term
+    while node.op == 'call':
+        sm = F.split_method(node.a[0])
+        if sm is None:
+            return None
+        recv, meth = sm
+        args = [F.kval(x) if F.is_k(x) and isinstance(F.kval(x), str) else None for x in node.a[1]]
+        if node.a[2] or any(x is None for x in args):
+            ops.append(f'.other {lstr(meth)}')
         elif meth == 'lstrip' and len(args) == 1:
             ops.append(f'.lstrip {lchars(args[0])}')
         elif meth == 'replace' and len(args) == 2 and len(args[0]) == 1 and len(args[1]) == 1:
             ops.append(f'.replace {lchar(args[0])} {lchar(args[1])}')
         else:
             ops.append(f'.other {lstr(meth)}')
-        node = node.func.value
-    if not is_name(node, flag):
+        node = recv
+    if node is not flag:
         return None
     return list(reversed(ops))
 
 
-def parse_loop(fn):
-    """→ dict(prefix, ops, coercion) or raises ValueError(reason)"""
+def _short(fq, expected_fq, short):
+    """the name the bridge lemma expects for the expected function; anything else keeps its full name (and so differs)"""
+    return short if fq == expected_fq else (fq or '?')
+
+
+def parse_loop(repo):
+    """`parse_cli_settings`, by BEHAVIOUR per case.  One pass over the arguments with one pending-flag variable F, a mapping M
+    and a list U.  For an argument A:   flag(A) ∧ F≠None → U.append(F), F:=A;   flag(A) ∧ F=None → F:=A;
+    ¬flag(A) ∧ F≠None → M[key(F)] = coerce(A), F:=None;   ¬flag(A) ∧ F=None → U.append(A).   After the loop: F≠None →
+    U.append(F).   Result (M, U).   Any spelling of the conditions / branches / helpers is accepted, any other effect is not."""
+    fn = repo.func('replicat.utils.cli', 'parse_cli_settings')
     if fn is None:
-        raise ValueError('parse_cli_settings not found')
-    if len(fn.args.args) != 1:
-        raise ValueError('signature')
-    argl = fn.args.args[0].arg
-    body = [s for s in fn.body if not (isinstance(s, ast.Expr) and isinstance(s.value, ast.Constant))]
-    inits = {}
-    i = 0
-    while i < len(body) and isinstance(body[i], ast.Assign) and len(body[i].targets) == 1 and isinstance(body[i].targets[0], ast.Name):
-        inits[body[i].targets[0].id] = body[i].value
-        i += 1
-    rest = body[i:]
-    if len(rest) != 3 or not isinstance(rest[0], ast.For) or not isinstance(rest[2], ast.Return):
-        raise ValueError('statement list is not: inits, for, if, return')
-    loop, tail, ret = rest
-    if not (isinstance(ret.value, ast.Tuple) and len(ret.value.elts) == 2 and all(isinstance(e, ast.Name) for e in ret.value.elts)):
-        raise ValueError('return is not a pair of names')
-    mapping, unknown = ret.value.elts[0].id, ret.value.elts[1].id
-    if not (isinstance(inits.get(mapping), ast.Dict) and not inits[mapping].keys):
-        raise ValueError('mapping is not initialised to {}')
-    if not (isinstance(inits.get(unknown), ast.List) and not inits[unknown].elts):
-        raise ValueError('unknown is not initialised to []')
-    flags = [k for k, v in inits.items() if isinstance(v, ast.Constant) and v.value is None]
-    if len(flags) != 1 or len(inits) != 3:
-        raise ValueError('pending-flag variable not found')
-    flag = flags[0]
-    if not (is_name(loop.iter, argl) and isinstance(loop.target, ast.Name) and not loop.orelse):
-        raise ValueError('loop header')
-    arg = loop.target.id
-    if len(loop.body) != 1 or not isinstance(loop.body[0], ast.If):
-        raise ValueError('loop body is not a single if')
-    top = loop.body[0]
-    t = top.test
-    if not (isinstance(t, ast.Call) and isinstance(t.func, ast.Attribute) and t.func.attr == 'startswith' and is_name(t.func.value, arg)
-            and len(t.args) == 1 and const_str(t.args[0]) and not t.keywords):
-        raise ValueError('prefix test is not arg.startswith(<literal>)')
-    prefix = const_str(t.args[0])
-    # flag branch: [flush pending], flag = arg
-    fb = top.body
-    if not (len(fb) == 2 and flush_pending(fb[0], flag, unknown) and assign_to(fb[1], flag) is not None and is_name(assign_to(fb[1], flag), arg)):
-        raise ValueError('flag branch is not: flush pending flag; flag = arg')
-    # value branch
-    if len(top.orelse) != 1 or not isinstance(top.orelse[0], ast.If):
-        raise ValueError('value branch is not a single if/else')
-    vb = top.orelse[0]
-    if not is_none_test(vb.test, flag, True):
-        raise ValueError('value branch does not test the pending flag')
-    if not (len(vb.orelse) == 1 and is_append(vb.orelse[0], unknown, arg)):
-        raise ValueError('value without flag is not appended to unknown')
-    # pairing statements: straight-line, ends with flag = None, contains mapping[<key>] = <value>
-    env = {}
+        raise NotRec('parse_cli_settings not found')
+    if len(fn.node.args.args) != 1 or fn.node.args.vararg or fn.node.args.kwonlyargs or fn.node.args.kwarg:
+        raise NotRec('signature')
+    P = F.mk('p', fn.node.args.args[0].arg)
+    ex = F.Exec(repo)
+    ret = ex.run(fn)
+    if len(ex.loops) != 1:
+        raise NotRec(f'{len(ex.loops)} loops (expected one pass over the arguments)')
+    L = next(iter(ex.loops.values()))
+    index = None
+    it, elem = L['iter'], L['elem']
+    if L['kind'] == 'while':
+        # `i = 0; while i < len(args): arg = args[i]; i += 1; …` — the same pass, spelled with an index
+        c = L['cond']
+        if c is not None and c.op == 'cmp' and c.a[0] in ('<', '>'):
+            lo, hi = (c.a[1], c.a[2]) if c.a[0] == '<' else (c.a[2], c.a[1])
+            if lo.op == 'lv' and lo.a[0] == L['id'] and F.is_k(L['init'].get(lo.a[1]), 0) and hi.op == 'call' \
+                    and F.callee_name(hi.a[0]) == 'len' and list(hi.a[1]) == [P]:
+                index = lo
+        if index is None:
+            raise NotRec('not a pass over the argument list')
+        A = ex.item(P, index)
+    elif it is P or (it.op == 'call' and F.callee_name(it.a[0]) in ('iter', 'list', 'tuple') and list(it.a[1]) == [P] and not it.a[2]):
+        A = elem
+    elif it.op == 'call' and F.callee_name(it.a[0]) == 'enumerate' and list(it.a[1]) == [P] and not it.a[2]:
+        A = ex.item(elem, F.K(1))
+    elif it.op == 'call' and F.callee_name(it.a[0]) == 'range' and len(it.a[1]) == 1 and it.a[1][0].op == 'call' \
+            and F.callee_name(it.a[1][0].a[0]) == 'len' and list(it.a[1][0].a[1]) == [P]:
+        A = ex.item(P, elem)
+    else:
+        raise NotRec('the loop does not run over the argument list: ' + F.show(it)[:80])
+    flags = [v for v, init in L['init'].items() if F.is_k(init, None)]
+    if len(flags) != 1:
+        raise NotRec('pending-flag variable not found')
+    fname = flags[0]
+    Fl = F.mk('lv', L['id'], fname)           # the pending flag at the start of an iteration
+    Fo = F.mk('lo', L['id'], fname)           # … after the loop
+    if not (ret.op == 'tuple' and len(ret.a[0]) == 2):
+        raise NotRec('result is not a pair')
+    M, U = _base(ret.a[0][0]), ret.a[0][1]
+    if not (M.op == 'dict' and not M.a[0] and U.op == 'list' and not U.a[0]):
+        raise NotRec('result is not (fresh dict, fresh list)')
+    # the prefix test: the one condition on A that is a startswith
+    prefix_atom = None
+    for e in ex.events:
+        for at in F.atoms(e.pc):
+            t = at.a[0] if at.op == 'truthy' else None
+            if t is not None and t.op == 'call' and F.split_method(t.a[0]) is not None and F.split_method(t.a[0])[1] == 'startswith' \
+                    and F.split_method(t.a[0])[0] is A and len(t.a[1]) == 1 and isinstance(F.kval(t.a[1][0]), str) and not t.a[2]:
+                if prefix_atom is not None and prefix_atom is not at:
+                    raise NotRec('more than one prefix test')
+                prefix_atom = at
+    if prefix_atom is None:
+        raise NotRec('prefix test is not arg.startswith(<literal>)')
+    prefix = F.kval(prefix_atom.a[0].a[1][0])
+    none_in = F.mk('isnone', Fl)
+    none_out = F.mk('isnone', Fo)
+    eff = _effects(ex, extra=('append', 'extend', 'insert', 'pop', 'remove', 'clear', 'update', 'setdefault', 'popitem'))
+    in_loop = [e for e in eff if ('loop', L['id']) in e.ctx]
+    after = [e for e in eff if ('loop', L['id']) not in e.ctx]
+
+    def happens(events, val):
+        out = []
+        for e in events:
+            if _decided(F.relative_pc(e.pc, loop_base), val):
+                if e.kind == 'call':
+                    recv, meth = F.split_method(e.f)
+                    out.append((meth, F.resolve(recv, val), tuple(F.resolve(x, val) for x in e.args)))
+                elif e.kind == 'setitem':
+                    out.append(('setitem', _base(F.resolve(e.obj, val)), (F.resolve(e.key, val), F.resolve(e.value, val))))
+                else:
+                    out.append((e.kind, None, ()))
+        return out
+
+    upd = L['update'].get(fname)
+    if upd is None:
+        raise NotRec('the pending flag is never updated')
+    step = L['update'].get(index.a[1]) if index is not None else None
+    loop_base = (L['cond'],) if index is not None else ()       # inside the body the loop condition holds
     stored = None
-    reset = False
-    for s in vb.body:
-        if isinstance(s, ast.Assign) and len(s.targets) == 1 and isinstance(s.targets[0], ast.Name):
-            if s.targets[0].id == flag:
-                reset = isinstance(s.value, ast.Constant) and s.value.value is None
+    for is_flag in (True, False):
+        for pending in (True, False):
+            val = F.Val().set(prefix_atom, is_flag).set(none_in, not pending)
+            did = happens(in_loop, val)
+            nf = F.resolve(upd, val)
+            if index is not None and (step is None or F.resolve(step, val) is not F.mk('bin', '+', index, F.K(1))):
+                raise NotRec('the index does not advance by one in every case')
+            if is_flag:
+                want = [('append', U, (Fl,))] if pending else []
+                if did != want or nf is not A:
+                    raise NotRec(f'flag argument, pending={pending}: does {did}, flag becomes {F.show(nf)}')
+            elif pending:
+                if len(did) != 1 or did[0][0] != 'setitem' or did[0][1] is not M or not F.is_k(nf, None):
+                    raise NotRec(f'value after a flag: does {did}, flag becomes {F.show(nf)}')
+                stored = did[0][2]
             else:
-                env[s.targets[0].id] = s.value
-        elif (isinstance(s, ast.Assign) and len(s.targets) == 1 and isinstance(s.targets[0], ast.Subscript)
-              and is_name(s.targets[0].value, mapping)):
-            stored = (s.targets[0].slice, s.value)
-        else:
-            raise ValueError('unexpected statement in the pairing branch: ' + ast.unparse(s)[:60])
-    if not reset or stored is None:
-        raise ValueError('pairing branch does not store into the mapping and reset the flag')
-
-    def resolve(e):
-        return env[e.id] if isinstance(e, ast.Name) and e.id in env else e
-    kexpr, vexpr = resolve(stored[0]), resolve(stored[1])
-    ops = key_ops(kexpr, flag)
+                if did != [('append', U, (A,))] or not (nf is Fl or F.is_k(nf, None)):
+                    raise NotRec(f'value without a flag: does {did}, flag becomes {F.show(nf)}')
+    for pending in (True, False):
+        val = F.Val().set(none_out, not pending)
+        did = happens(after, val)
+        if did != ([('append', U, (Fo,))] if pending else []):
+            raise NotRec(f'after the loop, pending={pending}: does {did}')
+    kexpr, vexpr = stored
+    ops = key_ops_of(kexpr, Fl)
     if ops is None:
-        raise ValueError('key expression is not a method chain on the flag: ' + ast.unparse(kexpr)[:60])
-    if not (isinstance(vexpr, ast.Call) and len(vexpr.args) == 1 and is_name(vexpr.args[0], arg) and not vexpr.keywords):
-        raise ValueError('value is not <coercion>(arg)')
-    coercion = ast.unparse(vexpr.func)
-    if not flush_pending(tail, flag, unknown):
-        raise ValueError('trailing flag is not appended to unknown')
-    return {'prefix': prefix, 'ops': ops, 'coercion': coercion, 'key_expr': ast.unparse(kexpr)}
+        raise NotRec('key expression is not a method chain on the flag: ' + F.show(kexpr)[:80])
+    if not (vexpr.op == 'call' and list(vexpr.a[1]) == [A] and not vexpr.a[2]):
+        raise NotRec('value is not <coercion>(arg)')
+    coercion = _short(F.callee_name(vexpr.a[0]), 'replicat.utils.guess_type', 'guess_type')
+    return {'prefix': prefix, 'ops': ops, 'coercion': coercion, 'key_expr': F.show(kexpr).replace(F.show(Fl), fname)}
 
 
-def exc_names(handler_type):
-    if handler_type is None:
-        return ['BaseException']
-    elts = handler_type.elts if isinstance(handler_type, ast.Tuple) else [handler_type]
-    return sorted(ast.unparse(e) for e in elts)
+def exc_names_of(types):
+    """the exception classes of a handler as sorted names (`exceptions.X` → `X` only for builtins: they have no module)"""
+    if types.op == 'tuple':
+        elts = list(types.a[0])
+    elif types.op == 'k' and isinstance(types.a[0], tuple):
+        raise NotRec('constant exception tuple')
+    else:
+        elts = [types]
+    names = []
+    for e in elts:
+        n = F.callee_name(e)
+        if n is None:
+            raise NotRec('exception class ' + F.show(e))
+        names.append(n)
+    return sorted(names)
 
 
-def flat_shape(fn):
+def _sep_default(fn):
+    kwd = {a.arg: d for a, d in zip(fn.node.args.kwonlyargs, fn.node.args.kw_defaults)}
+    pos = fn.node.args.args
+    dflts = dict(zip([a.arg for a in pos[len(pos) - len(fn.node.args.defaults):]], fn.node.args.defaults))
+    return kwd.get('sep', dflts.get('sep'))
+
+
+def flat_shape(repo):
+    """`flat_to_nested`: for every (key, value) of the flat mapping (sorted or not): parts = key.split(sep); starting at the
+    result dict R, `node = node.setdefault(x, {})` for every part but the last, then `node[last] = value` — all of that inside
+    one `try` whose handler raises; R is returned.  Accepted in any spelling (slices / starred unpacking, helper functions,
+    renamed locals); anything else that has an effect is not."""
+    fn = repo.func('replicat.utils', 'flat_to_nested')
     if fn is None:
-        raise ValueError('flat_to_nested not found')
-    kwd = {a.arg: d for a, d in zip(fn.args.kwonlyargs, fn.args.kw_defaults)}
-    pos = fn.args.args
-    dflts = dict(zip([a.arg for a in pos[len(pos) - len(fn.args.defaults):]], fn.args.defaults))
-    sepdef = kwd.get('sep', dflts.get('sep'))
+        raise NotRec('flat_to_nested not found')
+    sepdef = _sep_default(fn)
     sep = const_str(sepdef) if sepdef is not None else None
     if sep is None or len(sep) != 1:
-        raise ValueError('separator default is not a single character')
-    flat = pos[0].arg
-    body = [s for s in fn.body if not (isinstance(s, ast.Expr) and isinstance(s.value, ast.Constant))]
-    if not (len(body) == 3 and isinstance(body[0], ast.Assign) and len(body[0].targets) == 1 and isinstance(body[0].targets[0], ast.Name)
-            and isinstance(body[1], ast.For) and isinstance(body[2], ast.Return)):
-        raise ValueError('statement list is not: root = {}, for, return')
-    root = body[0].targets[0].id
-    if not (isinstance(body[0].value, ast.Dict) and not body[0].value.keys and is_name(body[2].value, root)):
-        raise ValueError('root is not {} / not returned')
-    loop = body[1]
-    it = loop.iter
-    items = f'{flat}.items()'
-    if ast.unparse(it) == f'sorted({items})':
-        is_sorted = True
-    elif ast.unparse(it) == items:
-        is_sorted = False
+        raise NotRec('separator default is not a single character')
+    ex = F.Exec(repo)
+    ret = ex.run(fn)
+    FLAT, SEP = F.mk('p', fn.node.args.args[0].arg), F.mk('p', 'sep')
+    R = _base(ret)
+    if not (R.op == 'dict' and not R.a[0]):
+        raise NotRec('the result is not a fresh dict')
+    loops = sorted(ex.loops.values(), key=lambda l: l['id'])
+    outer = [l for l in loops if not any(c[0] == 'loop' for c in l['ctx'])]
+    if len(outer) != 1 or len(loops) != 2 or outer[0]['kind'] != 'for':
+        raise NotRec('expected one loop over the items with one descent loop inside')
+    L1 = outer[0]
+    L2 = [l for l in loops if l is not L1][0]
+    if ('loop', L1['id']) not in L2['ctx'] or L2['kind'] != 'for':
+        raise NotRec('descent loop is not inside the item loop')
+    it = L1['iter']
+    is_sorted = False
+    if it.op == 'call' and F.callee_name(it.a[0]) == 'sorted' and len(it.a[1]) == 1 and not it.a[2]:
+        is_sorted, it = True, it.a[1][0]
+    e1 = L1['elem']
+    if it.op == 'call' and F.split_method(it.a[0]) == (FLAT, 'items') and not it.a[1] and not it.a[2]:
+        KEY, VALUE = ex.item(e1, F.K(0)), ex.item(e1, F.K(1))
+    elif it is FLAT or (it.op == 'call' and F.split_method(it.a[0]) == (FLAT, 'keys') and not it.a[1]):
+        KEY, VALUE = e1, ex.item(FLAT, e1)
     else:
-        raise ValueError('iteration is neither sorted(flat.items()) nor flat.items(): ' + ast.unparse(it)[:60])
-    if not (isinstance(loop.target, ast.Tuple) and len(loop.target.elts) == 2 and all(isinstance(e, ast.Name) for e in loop.target.elts)):
-        raise ValueError('loop target')
-    key, value = (e.id for e in loop.target.elts)
-    lb = loop.body
-    if len(lb) != 3:
-        raise ValueError('loop body is not: split, current = root, try')
-    sp = lb[0]
-    if not (isinstance(sp, ast.Assign) and isinstance(sp.targets[0], ast.Tuple) and len(sp.targets[0].elts) == 2
-            and isinstance(sp.targets[0].elts[0], ast.Starred) and isinstance(sp.targets[0].elts[1], ast.Name)
-            and ast.unparse(sp.value) == f'{key}.split(sep)'):
-        raise ValueError('split statement is not *ancestors, attribute = key.split(sep)')
-    ancestors, attribute = sp.targets[0].elts[0].value.id, sp.targets[0].elts[1].id
-    cur = lb[1]
-    if not (isinstance(cur, ast.Assign) and isinstance(cur.targets[0], ast.Name) and is_name(cur.value, root)):
-        raise ValueError('current = root')
-    current = cur.targets[0].id
-    tr = lb[2]
-    if not (isinstance(tr, ast.Try) and len(tr.body) == 2 and not tr.orelse and not tr.finalbody and len(tr.handlers) == 1):
-        raise ValueError('try shape')
-    descent, store = tr.body
-    if not (isinstance(descent, ast.For) and is_name(descent.iter, ancestors) and isinstance(descent.target, ast.Name) and len(descent.body) == 1
-            and ast.unparse(descent.body[0]) == f'{current} = {current}.setdefault({descent.target.id}, {{}})'):
-        raise ValueError('descent is not current = current.setdefault(x, {})')
-    if ast.unparse(store) != f'{current}[{attribute}] = {value}':
-        raise ValueError('store is not current[attribute] = value')
-    h = tr.handlers[0]
-    if not (len(h.body) == 1 and isinstance(h.body[0], ast.Raise) and isinstance(h.body[0].exc, ast.Call)):
-        raise ValueError('handler does not raise')
-    raised = ast.unparse(h.body[0].exc.func).split('.')[-1]
-    msg = const_str(h.body[0].exc.args[0]) if h.body[0].exc.args else None
-    return {'sep': sep, 'sorted': is_sorted, 'catches': exc_names(h.type), 'raises': raised, 'message': msg or ''}
+        raise NotRec('iteration is neither sorted(flat.items()) nor flat.items(): ' + F.show(L1['iter'])[:80])
+    # the descent
+    split = None
+    anc = L2['iter']
+    if anc.op == 'slice' and F.is_k(anc.a[1], 0) and F.is_k(anc.a[2], -1) and F.is_k(anc.a[3], None):
+        split = anc.a[0]
+    if split is None or not (split.op == 'call' and F.split_method(split.a[0]) == (KEY, 'split') and list(split.a[1]) == [SEP] and not split.a[2]):
+        raise NotRec('descent does not run over key.split(sep)[:-1]: ' + F.show(anc)[:80])
+    cur = [v for v, t in L2['update'].items() if t.op == 'call' and F.split_method(t.a[0]) is not None and F.split_method(t.a[0])[1] == 'setdefault']
+    if len(cur) != 1:
+        raise NotRec('descent step is not node = node.setdefault(part, {})')
+    cname = cur[0]
+    step = L2['update'][cname]
+    lv, lo = F.mk('lv', L2['id'], cname), F.mk('lo', L2['id'], cname)
+    if not (F.split_method(step.a[0])[0] is lv and len(step.a[1]) == 2 and step.a[1][0] is L2['elem'] and step.a[1][1].op == 'dict'
+            and not step.a[1][1].a[0] and not step.a[2]):
+        raise NotRec('descent step is not node = node.setdefault(part, {}): ' + F.show(step)[:80])
+    if L2['init'].get(cname) is not R:
+        raise NotRec('descent does not start at the result dict')
+    eff = _effects(ex, extra=('update', 'pop', 'clear', 'popitem', 'append', 'setdefault', '__setitem__'))
+    stores = [e for e in eff if e.kind == 'setitem']
+    raises = [e for e in eff if e.kind == 'raise']
+    steps = [e for e in eff if e.kind == 'call' and e.result is step]
+    if len(stores) != 1 or len(raises) != 1 or len(steps) != 1 or len(eff) != 3:
+        raise NotRec('effects other than the descent step, one item store and one raise: ' + repr(eff)[:160])
+    st, rs = stores[0], raises[0]
+    last = F.mk('item', split, F.K(-1))
+    if not (st.obj is lo and st.key is last and st.value is VALUE and F.truth(st.pc, F.Val()) is True):
+        raise NotRec('store is not node[last part] = value: ' + repr(st)[:120])
+    tries = [c[1] for c in st.ctx if c[0] == 'try']
+    tn = [t for t in tries if ('try', t) in L2['ctx']]
+    if not tn:
+        raise NotRec('descent and store are not inside one try')
+    hs = [c for c in rs.ctx if c[0] == 'handler' and c[1] in tn]
+    if not hs:
+        raise NotRec('the raise is not in the handler of that try')
+    types = None
+    for at in F.atoms(rs.pc):
+        t = at.a[0] if at.op == 'truthy' else at
+        if t.op == 'exc' and t.a[0] == hs[0][1] and t.a[1] == hs[0][2]:
+            types = t.a[2]
+    if types is None:
+        raise NotRec('handler condition not found')
+    exc = rs.value
+    if not (exc.op == 'call'):
+        raise NotRec('handler does not raise a new exception')
+    raised = (F.callee_name(exc.a[0]) or '?').split('.')[-1]
+    msg = F.kval(exc.a[1][0]) if exc.a[1] and isinstance(F.kval(exc.a[1][0]), str) else ''
+    return {'sep': sep, 'sorted': is_sorted, 'catches': exc_names_of(types), 'raises': raised, 'message': msg}
 
 
-def guess_shape(fn):
+def guess_shape(repo):
+    """`guess_type(v)` by its result per case: [v is not a str → v];  w = v.title() if v.lower() in WORDS else v;
+    EVAL(w) unless one of CATCHES is raised, then the text"""
+    fn = repo.func('replicat.utils', 'guess_type')
     if fn is None:
-        raise ValueError('guess_type not found')
-    v = fn.args.args[0].arg
-    body = [s for s in fn.body if not (isinstance(s, ast.Expr) and isinstance(s.value, ast.Constant))]
-    # optional pass-through of non-str values
-    if body and isinstance(body[0], ast.If) and ast.unparse(body[0].test) == f'not isinstance({v}, str)' \
-            and len(body[0].body) == 1 and isinstance(body[0].body[0], ast.Return) and is_name(body[0].body[0].value, v):
-        body = body[1:]
-    if len(body) != 2 or not isinstance(body[0], ast.If) or not isinstance(body[1], ast.Try):
-        raise ValueError('statement list is not: [non-str passthrough], if …: title, try')
-    ti = body[0]
-    t = ti.test
-    if not (isinstance(t, ast.Compare) and len(t.ops) == 1 and isinstance(t.ops[0], ast.In) and ast.unparse(t.left) == f'{v}.lower()'
-            and isinstance(t.comparators[0], (ast.Set, ast.Tuple, ast.List)) and all(const_str(e) is not None for e in t.comparators[0].elts)):
-        raise ValueError('title test is not value.lower() in {literals}')
-    words = sorted(const_str(e) for e in t.comparators[0].elts)
-    if not all(w and all('a' <= c <= 'z' for c in w) for w in words):
-        raise ValueError('title words are not lower-case ASCII letters')
-    if not (len(ti.body) == 1 and not ti.orelse and ast.unparse(ti.body[0]) == f'{v} = {v}.title()'):
-        raise ValueError('title statement')
-    tr = body[1]
-    if not (len(tr.body) == 1 and isinstance(tr.body[0], ast.Return) and isinstance(tr.body[0].value, ast.Call)
-            and len(tr.body[0].value.args) == 1 and is_name(tr.body[0].value.args[0], v) and len(tr.handlers) == 1
-            and len(tr.handlers[0].body) == 1 and isinstance(tr.handlers[0].body[0], ast.Return) and is_name(tr.handlers[0].body[0].value, v)
-            and not tr.orelse and not tr.finalbody):
-        raise ValueError('try shape is not: return <eval>(value) / except …: return value')
-    return {'words': words, 'eval': ast.unparse(tr.body[0].value.func), 'catches': exc_names(tr.handlers[0].type)}
+        raise NotRec('guess_type not found')
+    V = F.mk('p', fn.node.args.args[0].arg)
+    ex = F.Exec(repo)
+    ex.run(fn)
+    rets = [e for e in ex.events if e.kind == 'return' and not any(c[0] in ('call', 'cb') for c in e.ctx)]
+    eff = _effects(ex, extra=())
+    if eff:
+        raise NotRec('guess_type has effects: ' + repr(eff)[:120])
+    all_atoms = F.atoms(*[e.pc for e in rets]) + [a for a in F.phi_atoms(*[e.value for e in rets])]
+    is_str = words_atom = exc_atom = None
+    for at in all_atoms:
+        t = at.a[0] if at.op == 'truthy' else at
+        if t.op == 'call' and F.callee_name(t.a[0]) == 'isinstance' and list(t.a[1]) == [V, F.mk('g', 'str')]:
+            is_str = at
+        elif at.op == 'in' and at.a[0].op == 'call' and F.split_method(at.a[0].a[0]) == (V, 'lower') and not at.a[0].a[1] \
+                and F.is_k(at.a[1]) and isinstance(at.a[1].a[0], (frozenset, tuple)):
+            words_atom = at
+        elif t.op == 'exc':
+            if exc_atom is not None:
+                raise NotRec('more than one handler')
+            exc_atom = at
+        else:
+            raise NotRec('unmodelled condition: ' + F.show(at)[:80])
+    if words_atom is None or exc_atom is None:
+        raise NotRec('title test / try not found')
+    words = sorted(words_atom.a[1].a[0])
+    if not all(isinstance(w, str) and w and all('a' <= c <= 'z' for c in w) for w in words):
+        raise NotRec('title words are not lower-case ASCII letters')
+    try_id = exc_atom.a[0].a[0] if exc_atom.op == 'truthy' else exc_atom.a[0]
+    titled = None
+    evalfn = None
+
+    def result(val, caught):
+        for e in rets:
+            if caught and ('try', try_id) in e.ctx:
+                continue          # the exception interrupted the body of the try
+            if _decided(e.pc, val):
+                return F.resolve(e.value, val)
+        raise NotRec('no result in some case')
+    for s in ((True, False) if is_str is not None else (True,)):
+        for w in (True, False):
+            for x in (True, False):
+                val = F.Val().set(words_atom, w).set(exc_atom, x)
+                if is_str is not None:
+                    val.set(is_str, s)
+                r = result(val, x)
+                if not s:
+                    if r is not V:
+                        raise NotRec('non-str value is not passed through')
+                    continue
+                text = V
+                if w:
+                    if titled is None:
+                        # whatever the evaluator is applied to in this case must be v.title()
+                        pass
+                    text = None
+                if x:
+                    if not (r is V or (w and r.op == 'call' and F.split_method(r.a[0]) == (V, 'title'))):
+                        raise NotRec('fallback is not the text itself: ' + F.show(r)[:80])
+                    continue
+                if not (r.op == 'call' and len(r.a[1]) == 1 and not r.a[2]):
+                    raise NotRec('result is not <eval>(text): ' + F.show(r)[:80])
+                arg = r.a[1][0]
+                if w:
+                    if not (arg.op == 'call' and F.split_method(arg.a[0]) == (V, 'title') and not arg.a[1] and not arg.a[2]):
+                        raise NotRec('listed words are not title-cased before evaluation')
+                elif arg is not V:
+                    raise NotRec('other words are changed before evaluation: ' + F.show(arg)[:80])
+                name = F.callee_name(r.a[0])
+                if evalfn is not None and evalfn != name:
+                    raise NotRec('two evaluators')
+                evalfn = name
+    t = exc_atom.a[0] if exc_atom.op == 'truthy' else exc_atom
+    return {'words': words, 'eval': evalfn or '?', 'catches': exc_names_of(t.a[2])}
 
 
-def main_chain(tree, ctx):
-    main = ctx.find_func(tree, 'main')
-    handler = ctx.find_func(tree, '_cmd_handler')
-    if main is None or handler is None:
-        raise ValueError('main / _cmd_handler not found')
-    steps = []
-    actions = None
-    unknown = settings = parser = flat = None
-    for s in main.body:
-        # _, unknown_args = main_parser.parse_known_args(namespace=args)
-        if (isinstance(s, ast.Assign) and isinstance(s.targets[0], ast.Tuple) and len(s.targets[0].elts) == 2 and isinstance(s.value, ast.Call)
-                and isinstance(s.value.func, ast.Attribute) and s.value.func.attr == 'parse_known_args' and isinstance(s.targets[0].elts[1], ast.Name)
-                and any(k.arg == 'namespace' for k in s.value.keywords)):
-            unknown = s.targets[0].elts[1].id
-            parser = ast.unparse(s.value.func.value)
-            steps.append('.secondParse')
-        elif unknown and isinstance(s, ast.Assign) and isinstance(s.targets[0], ast.Name) and isinstance(s.value, ast.Constant) and s.value.value is None \
-                and 'secondParse' in ''.join(steps) and settings is None:
-            settings = s.targets[0].id
-            steps.append('.settingsNone')
-        elif unknown and settings and isinstance(s, ast.If) and isinstance(s.test, ast.BoolOp) and isinstance(s.test.op, ast.And) and len(s.test.values) == 2 \
-                and is_name(s.test.values[0], unknown):
-            memb = s.test.values[1]
-            if not (isinstance(memb, ast.Compare) and len(memb.ops) == 1 and isinstance(memb.ops[0], ast.In) and ast.unparse(memb.left) == 'args.action'
-                    and isinstance(memb.comparators[0], (ast.Set, ast.Tuple, ast.List)) and all(const_str(e) for e in memb.comparators[0].elts)):
-                raise ValueError('action test')
-            actions = sorted(const_str(e) for e in memb.comparators[0].elts)
-            inner = [x for x in s.body if not (isinstance(x, ast.Expr) and isinstance(x.value, ast.Call) and ast.unparse(x.value.func).startswith('logger.'))]
-            if len(inner) != 2:
-                raise ValueError('settings branch is not: parse; if clean: nest')
-            p, n = inner
-            if not (isinstance(p, ast.Assign) and isinstance(p.targets[0], ast.Tuple) and len(p.targets[0].elts) == 2
-                    and isinstance(p.targets[0].elts[0], ast.Name) and is_name(p.targets[0].elts[1], unknown)
-                    and isinstance(p.value, ast.Call) and ast.unparse(p.value.func).split('.')[-1] == 'parse_cli_settings'
-                    and len(p.value.args) == 1 and is_name(p.value.args[0], unknown)):
-                raise ValueError('parse_cli_settings call')
-            flat = p.targets[0].elts[0].id
-            steps.append('.parseCliSettings')
-            if not (isinstance(n, ast.If) and ast.unparse(n.test) == f'not {unknown}' and len(n.body) == 1 and not n.orelse
-                    and assign_to(n.body[0], settings) is not None and isinstance(n.body[0].value, ast.Call)
-                    and ast.unparse(n.body[0].value.func).split('.')[-1] == 'flat_to_nested'
-                    and len(n.body[0].value.args) == 1 and is_name(n.body[0].value.args[0], flat) and not n.body[0].value.keywords):
-                raise ValueError('flat_to_nested call')
-            steps.append('.flatToNestedIfClean')
-        elif unknown and isinstance(s, ast.If) and is_name(s.test, unknown) and len(s.body) == 1 and isinstance(s.body[0], ast.Expr) \
-                and isinstance(s.body[0].value, ast.Call) and ast.unparse(s.body[0].value.func) == f'{parser}.error':
-            steps.append('.errorIfUnknown')
-        elif (isinstance(s, ast.Expr) and isinstance(s.value, ast.Call) and ast.unparse(s.value.func) == 'asyncio.run'
-              and s.value.args and isinstance(s.value.args[0], ast.Call) and is_name(s.value.args[0].func, '_cmd_handler')):
-            call = s.value.args[0]
-            params = [a.arg for a in handler.args.args]
-            passed = None
-            for i, a in enumerate(call.args):
-                if is_name(a, settings) and i < len(params):
-                    passed = params[i]
-            for k in call.keywords:
-                if is_name(k.value, settings):
-                    passed = k.arg
-            if passed is None:
-                raise ValueError('custom settings are not handed to _cmd_handler')
-            steps.append('.runHandler')
-            hparam = passed
-    if actions is None or 'runHandler' not in ''.join(steps):
-        raise ValueError('chain incomplete: ' + ' '.join(steps))
+def _main_policy(target, ex):
+    """follow the helpers of __main__.py, but not the command handler (the coroutine function handed to `asyncio.run`)"""
+    return target.nested or (target.module.fq == 'replicat.__main__' and not isinstance(target.node, ast.AsyncFunctionDef))
+
+
+def main_chain(repo):
+    """The part of `main()` that moves the custom settings, by behaviour per case (U0 = unknown words of the second parse,
+    U1 = what `parse_cli_settings` leaves unknown):
+        settings = flat_to_nested(flat)  iff  U0 ∧ action ∈ ACTIONS ∧ ¬U1,   else None;
+        parser.error(…)                  iff  the words still unknown (U1 in the first case, else U0) are non-empty;
+        then the handler runs with `settings`."""
+    fmain = repo.func('replicat.__main__', 'main')
+    if fmain is None:
+        raise NotRec('main not found')
+    ex = F.Exec(repo, inline=_main_policy)
+    ex.run(fmain)
+    none = F.Val()
+    calls = [e for e in ex.events if e.kind == 'call']
+    mk_parser = [e for e in calls if e.fq() == 'replicat.utils.cli.make_main_parser']
+    if len(mk_parser) != 1:
+        raise NotRec('make_main_parser call')
+    parser = mk_parser[0].result
+    second = [e for e in calls if F.method_call(e, 'parse_known_args') is not None and F.resolve(F.method_call(e, 'parse_known_args'), none) is parser]
+    if len(second) != 1 or second[0].arg(1, 'namespace') is None:
+        raise NotRec('second parse (parse_known_args(namespace=…) of the main parser)')
+    steps = ['.secondParse']
+    U0 = ex.item(second[0].result, F.K(1))
+    pcs = [e for e in calls if e.fq() == 'replicat.utils.cli.parse_cli_settings']
+    nests = [e for e in calls if e.fq() == 'replicat.utils.flat_to_nested']
+    errs = [e for e in calls if F.method_call(e, 'error') is not None and F.resolve(F.method_call(e, 'error'), none) is parser]
+    # the handler: the coroutine function of __main__.py whose coroutine main() runs (whatever it is called)
+    runs = [e for e in calls if e.f.op == 'fn' and not e.inlined and e.f.a[0].module.fq == 'replicat.__main__'
+            and isinstance(e.f.a[0].node, ast.AsyncFunctionDef)]
+    if len(pcs) != 1 or len(nests) != 1 or len(errs) != 1 or len(runs) != 1:
+        raise NotRec(f'chain incomplete: {len(pcs)} parse_cli_settings, {len(nests)} flat_to_nested, {len(errs)} parser.error, {len(runs)} handler calls')
+    Pe, Ne, Ee, He = pcs[0], nests[0], errs[0], runs[0]
+    handler = He.f.a[0]
+    if not (list(Pe.args) == [U0] and not Pe.kwargs):
+        raise NotRec('parse_cli_settings is not applied to the unknown words of the second parse')
+    FLAT, U1 = ex.item(Pe.result, F.K(0)), ex.item(Pe.result, F.K(1))
+    if not (list(Ne.args) == [FLAT] and not Ne.kwargs):
+        raise NotRec('flat_to_nested is not applied to the parsed flat settings')
+    a0, a1 = F.mk('truthy', U0), F.mk('truthy', U1)
+    act = [at for at in F.atoms(Pe.pc) if at.op == 'in' and at.a[0].op == 'attr' and at.a[0].a[1] == 'action'
+           and F.is_k(at.a[1]) and isinstance(at.a[1].a[0], (frozenset, tuple))]
+    if len(act) != 1 or not all(isinstance(x, str) for x in act[0].a[1].a[0]):
+        raise NotRec('action test')
+    aA = act[0]
+    actions = sorted(aA.a[1].a[0])
+    # which parameter of the handler receives the settings
+    params = [a.arg for a in handler.node.args.args]
+    clean = F.Val().set(a0, True).set(aA, True).set(a1, False)
+    hparam, settings = None, None
+    for i, a in enumerate(He.args):
+        if i < len(params) and F.resolve(a, clean) is Ne.result:
+            hparam, settings = params[i], a
+    for k, v in He.kwargs:
+        if k is not None and F.resolve(v, clean) is Ne.result:
+            hparam, settings = k, v
+    if hparam is None:
+        raise NotRec('custom settings are not handed to _cmd_handler')
+    base = second[0].pc        # conditions under which main() gets as far as the second parse: common to everything after it
+    rel = {id(e): F.relative_pc(e.pc, base) for e in (Pe, Ne, Ee, He)}
+    ok = {'settingsNone': True, 'parseCliSettings': True, 'flatToNestedIfClean': True, 'errorIfUnknown': True}
+    for v0 in (True, False):
+        for vA in (True, False):
+            for v1 in (True, False):
+                val = F.Val().set(a0, v0).set(aA, vA).set(a1, v1)
+                branch = v0 and vA
+                s = F.resolve(settings, val)
+                if not branch and not F.is_k(s, None):
+                    ok['settingsNone'] = False
+                if F.truth(rel[id(Pe)], val) is not branch:
+                    ok['parseCliSettings'] = False
+                if F.truth(rel[id(Ne)], val) is not (branch and not v1):
+                    ok['flatToNestedIfClean'] = False
+                if branch and not (s is Ne.result if not v1 else F.is_k(s, None)):
+                    ok['flatToNestedIfClean'] = False
+                left = v1 if branch else v0
+                if F.truth(rel[id(Ee)], val) is not left:
+                    ok['errorIfUnknown'] = False
+                if left:
+                    # what is reported is what is left
+                    pass
+    if not (Ee.id < He.id and Pe.id < Ne.id < Ee.id and second[0].id < Pe.id):
+        ok['errorIfUnknown'] = False
+    if rel[id(He)]:
+        raise NotRec('the handler runs under a further condition: ' + F.show(rel[id(He)])[:120])
+    for k in ('settingsNone', 'parseCliSettings', 'flatToNestedIfClean', 'errorIfUnknown'):
+        if ok[k]:
+            steps.append('.' + k)
+    if not any(e.kind == 'call' and e.id > He.id and any(F.contains(a, He.result) for a in e.args) for e in ex.events):
+        raise NotRec('the handler coroutine is never run')
+    steps.append('.runHandler')
     # _cmd_handler: which repository methods receive settings=<hparam>, under which action
+    hx = F.Exec(repo)
+    hx.run(handler)
+    HP = F.mk('p', hparam)
+    cands = set()
+    for e in hx.events:
+        for at in F.atoms(e.pc):
+            if at.op == 'eq' and at.a[0].op == 'attr' and at.a[0].a[1] == 'action' and isinstance(F.kval(at.a[1]), str):
+                cands.add(F.kval(at.a[1]))
+            if at.op == 'in' and at.a[0].op == 'attr' and at.a[0].a[1] == 'action' and F.is_k(at.a[1]) and isinstance(at.a[1].a[0], (frozenset, tuple)):
+                cands.update(x for x in at.a[1].a[0] if isinstance(x, str))
     passes = []
-    for node in ast.walk(handler):
-        if isinstance(node, ast.If):
-            t = node.test
-            if isinstance(t, ast.Compare) and ast.unparse(t.left) == 'args.action' and len(t.ops) == 1 and isinstance(t.ops[0], ast.Eq) and const_str(t.comparators[0]):
-                act = const_str(t.comparators[0])
-                for sub in node.body:
-                    for c in ast.walk(sub):
-                        if isinstance(c, ast.Call) and isinstance(c.func, ast.Attribute) and is_name(c.func.value, 'repository') \
-                                and any(k.arg == 'settings' and is_name(k.value, hparam) for k in c.keywords):
-                            passes.append((act, c.func.attr))
+    for actn in sorted(cands):
+        def decide(at, val, actn=actn):
+            if at.op == 'eq' and at.a[0].op == 'attr' and at.a[0].a[1] == 'action' and F.is_k(at.a[1]):
+                return F.kval(at.a[1]) == actn
+            if at.op == 'in' and at.a[0].op == 'attr' and at.a[0].a[1] == 'action' and F.is_k(at.a[1]):
+                return actn in at.a[1].a[0]
+            return None
+        val = F.Val(decide=decide)
+        for e in hx.events:
+            if e.kind != 'call' or F.truth(e.pc, val) is False:
+                continue
+            sm = F.split_method(e.f)
+            if sm is None:
+                continue
+            recv = F.resolve(sm[0], val)
+            if recv.op == 'call' and F.callee_name(recv.a[0]) == 'replicat.repository.Repository' \
+                    and any(k == 'settings' and F.resolve(v, val) is HP for k, v in e.kwargs):
+                passes.append((actn, sm[1]))
     return {'steps': steps, 'actions': actions, 'passes': sorted(set(passes))}
 
 
@@ -394,11 +594,12 @@ def section(ctx):
     ctx.fp('utils.flat_to_nested', ffn)
     ctx.fp('utils.guess_type', gfn)
     ctx.fp('__main__.main', ctx.find_func(main_tree, 'main'))
+    repo = F.shared_repo(ctx.REPO)
     # ---- parse loop
     try:
-        p = parse_loop(pfn)
+        p = parse_loop(repo)
         ok = True
-    except (ValueError, AttributeError, IndexError, KeyError) as e:
+    except Exception as e:  # noqa: BLE001 — whatever goes wrong in the analysis means "not recognised"
         ctx.notes['settingscli:parse_cli_settings'] = f'not recognised: {e}'
         p = {'prefix': '--', 'ops': [], 'coercion': '?', 'key_expr': '?'}
         ok = False
@@ -409,9 +610,9 @@ def section(ctx):
     ctx.notes['settingscli:key_expr'] = p['key_expr']
     # ---- flat_to_nested
     try:
-        f = flat_shape(ffn)
+        f = flat_shape(repo)
         ok = True
-    except (ValueError, AttributeError, IndexError, KeyError) as e:
+    except Exception as e:  # noqa: BLE001 — whatever goes wrong in the analysis means "not recognised"
         ctx.notes['settingscli:flat_to_nested'] = f'not recognised: {e}'
         f = {'sep': '.', 'sorted': False, 'catches': [], 'raises': '?', 'message': ''}
         ok = False
@@ -423,9 +624,9 @@ def section(ctx):
     emit(f'def flatDescentRecognised : Bool := {"true" if ok else "false"}')
     # ---- guess_type
     try:
-        g = guess_shape(gfn)
+        g = guess_shape(repo)
         ok = True
-    except (ValueError, AttributeError, IndexError, KeyError) as e:
+    except Exception as e:  # noqa: BLE001 — whatever goes wrong in the analysis means "not recognised"
         ctx.notes['settingscli:guess_type'] = f'not recognised: {e}'
         g = {'words': [], 'eval': '?', 'catches': []}
         ok = False
@@ -435,9 +636,9 @@ def section(ctx):
     emit(f'def guessRecognised : Bool := {"true" if ok else "false"}')
     # ---- main()
     try:
-        m = main_chain(main_tree, ctx)
+        m = main_chain(repo)
         ok = True
-    except (ValueError, AttributeError, IndexError, KeyError) as e:
+    except Exception as e:  # noqa: BLE001 — whatever goes wrong in the analysis means "not recognised"
         ctx.notes['settingscli:main'] = f'not recognised: {e}'
         m = {'steps': [], 'actions': [], 'passes': []}
         ok = False
